@@ -784,10 +784,10 @@ FAMILIES = [
     Family("grid", evaluate, enumerate=enum_grid, shards_quick=4, shards_thorough=8, exhaustive=True,
            required_labels=["zero-columns", "all-null", "zero-rows", "tz-aware", "subsecond", "int-beyond-2**53",
                             "kind=complex128", "bounds:int", "bounds:float", "bounds:datetime", "yaml=accept", "json=accept"]),
-    Family("frame", evaluate, strategy=frame_case, n_quick=450, n_thorough=8000, shards_quick=4, shards_thorough=16,
+    Family("frame", evaluate, strategy=frame_case, n_quick=900, n_thorough=8000, shards_quick=4, shards_thorough=16,
            required_labels=["index=multi", "index=single", "null", "all-null", "extreme", "zero-rows", "kind=category",
                             "kind=datetime", "kind=timedelta", "kind=object", "ix-null", "int-column-label",
                             "outcome=accept", "yaml=accept", "json=accept"]),
-    Family("series", evaluate, strategy=series_case, n_quick=250, n_thorough=4000, shards_quick=2, shards_thorough=8,
+    Family("series", evaluate, strategy=series_case, n_quick=500, n_thorough=4000, shards_quick=2, shards_thorough=8,
            required_labels=["index=multi", "null", "extreme", "outcome=accept"]),
 ]
